@@ -31,7 +31,7 @@ from .c01 import _real_run
 class DensityFluid(FluidStub):
     """Fluid stub with an increasing (m-scaled, density) table covering [0, m_i] (rows symbolic)."""
 
-    def __init__(self, rows):
+    def __init__(self, rows, descending=False):
         super().__init__()
         ms = [Q(0)]
         for k in range(1, rows):
@@ -39,11 +39,14 @@ class DensityFluid(FluidStub):
         rho = [fresh("rho0", pos=True)]
         for k in range(1, rows):
             rho.append(rho[-1] + fresh(f"drho{k}", pos=True))
-        self.pvt_props = {"m-scaled": SymArray(ms, "f8"), "density": SymArray(rho, "f8")}
         self.ms_top = ms[-1]
+        if descending:
+            # the same table listed from high pressure to low (row order is the caller's; every lookup in the library sorts)
+            ms, rho = ms[::-1], rho[::-1]
+        self.pvt_props = {"m-scaled": SymArray(ms, "f8"), "density": SymArray(rho, "f8")}
 
 
-def replay_ceiling(model, nx=3, rows=2):
+def replay_ceiling(model, nx=3, rows=2, descending=False):
     import numpy as np
     from bluebonnet.flow import reservoir as rr
     g = lambda k, d: float(model.get(k) if model.get(k) is not None else d)
@@ -52,7 +55,7 @@ def replay_ceiling(model, nx=3, rows=2):
     m_i, mf = g("m_i", ms[-1]), g("mf[0]", 0.0)
 
     class F:
-        pvt_props = {"m-scaled": ms, "density": rho}
+        pvt_props = {"m-scaled": ms[::-1].copy(), "density": rho[::-1].copy()} if descending else {"m-scaled": ms, "density": rho}
     r = rr.SinglePhaseReservoir(nx, 0.0, 1.0, F())
     lvl = np.array([g(f"x0_{j}#{j + 1}", 0.5 * (mf + m_i)) for j in range(nx)])
     lvl = np.clip(lvl, mf, m_i)
@@ -75,7 +78,7 @@ def replay_flux(model, cls="SinglePhaseReservoir", nx=3, nt=3):
     return bad, {"what": f"{cls} nx={nx}: flux-mode recovery {rf.tolist()} over times {t.tolist()} is not 0 first and non-decreasing", "inputs": {}}
 
 
-def job_zero_and_ceiling(job, nx, rows):
+def job_zero_and_ceiling(job, nx, rows, descending=False):
     mod = load_reservoir()
     job.encoded(mod, "IdealReservoir.recovery_factor", "SinglePhaseReservoir.fvf_scale", "SinglePhaseReservoir.simulate")
     job.stub("scipy interp1d (extrapolating density lookup): exact piecewise-linear model", "linear solve: the level after the initial "
@@ -90,7 +93,7 @@ def job_zero_and_ceiling(job, nx, rows):
         SS.LinSolve.reset(None)
         SS.reset_names()
         t, _ = times(2)
-        fluid = DensityFluid(rows)
+        fluid = DensityFluid(rows, descending)
         c = ctx()
         c.assume((lift(fluid.m_i) <= lift(fluid.ms_top)).node)
         r = mod.SinglePhaseReservoir(Q(nx), fresh("pf"), fresh("pi", pos=True), fluid)
@@ -103,7 +106,7 @@ def job_zero_and_ceiling(job, nx, rows):
         rff = r.recovery_factor()
         return rfd.d, rff.d, rho(mf), rho(fluid.m_i)
 
-    rp = (replay_ceiling, {"nx": nx, "rows": rows})
+    rp = (replay_ceiling, {"nx": nx, "rows": rows, "descending": descending})
     for k, pr in enumerate(paths(job, run, [], max_paths=256)):
         if pr.exc is not None:
             if isinstance(pr.exc, SS.NonMonotoneAbscissae):
@@ -111,7 +114,7 @@ def job_zero_and_ceiling(job, nx, rows):
             job.errors.append(f"ceiling nx={nx} raised {pr.exc!r}")
             continue
         rfd, rff, rho_f, rho_i = pr.value
-        tag = f"nx={nx},table={rows}"
+        tag = f"nx={nx},table={rows}" + (",rows listed high to low" if descending else "")
         job.prove(f"ceiling[{tag}]/reach[path{k}]", pr.pc + [T.b_lt(T.ZERO, P(rho_f))], expect="sat")
         job.prove(f"zero[{tag}]/in-place recovery is 0 at the first time[path{k}]", pr.pc + [T.b_not(T.b_eq0(P(rfd[0])))], bound=tag, replay=rp)
         job.prove(f"zero[{tag}]/flux recovery is 0 at the first time[path{k}]", pr.pc + [T.b_not(T.b_eq0(P(rff[0])))], bound=tag, replay=rp)
@@ -397,6 +400,7 @@ def job_flux_is_boundary_derivative(job, nx):
 def jobs(tier):
     out = [("flux-derivative-5", lambda j: job_flux_is_boundary_derivative(j, 5)), ("ceiling-3-2", lambda j: job_zero_and_ceiling(j, 3, 2)), ("ceiling-4-2", lambda j: job_zero_and_ceiling(j, 4, 2)),
            ("scale", job_scale), ("trapezoid-4", lambda j: job_trapezoid(j, 4)),
+           ("ceiling-3-3-descending", lambda j: job_zero_and_ceiling(j, 3, 3, True)),
            ("ceiling-run-3-float", lambda j: job_ceiling_run(j, 3, "f8")), ("ceiling-run-3-int", lambda j: job_ceiling_run(j, 3, "i8"))]
     for cls in ("SinglePhaseReservoir", "IdealReservoir"):
         out.append((f"flux-{cls[:6]}-3", lambda j, c=cls: job_flux_monotone(j, c, 3)))
